@@ -7,13 +7,16 @@
 set -u
 cd /verif
 filter="${1:-}"
-wt=/tmp/govc-selftest/wt
-rm -rf /tmp/govc-selftest; mkdir -p /tmp/govc-selftest/ev
+mode="${2:-}"
+root=/tmp/govc-selftest
+[ "$mode" = "thorough-corpus" ] && root="/tmp/govc-selftest-$(echo "$filter" | cut -d- -f1)"
+wt=$root/wt
+rm -rf "$root"; mkdir -p "$root/ev"
 git -C /repo worktree prune
-cp -r /verif/contracts /tmp/govc-selftest/contracts   # snapshot: edits made while the corpus runs do not leak in
+cp -r /verif/contracts "$root/contracts"   # snapshot: edits made while the corpus runs do not leak in
 git -C /repo worktree add -f -q "$wt" HEAD || exit 2
 out=seeded/RESULTS.txt
-: > /tmp/govc-selftest/results.txt
+: > $root/results.txt
 for d in seeded/*/ selftest/mutants/*/; do
   [ -f "$d/patch.diff" ] || continue
   n=$(basename "$d")
@@ -21,27 +24,29 @@ for d in seeded/*/ selftest/mutants/*/; do
   id=$(python3 -c "import json,sys; print(json.load(open('$d/meta.json')).get('property','') )" 2>/dev/null)
   [ -n "$id" ] || id=$(echo "$n" | cut -d- -f1)
   git -C "$wt" checkout -q -- . && git -C "$wt" clean -fdq
-  if ! git -C "$wt" apply "/verif/$d/patch.diff" 2>/dev/null; then echo "$n $id PATCH-DOES-NOT-APPLY" >> /tmp/govc-selftest/results.txt; continue; fi
+  if ! git -C "$wt" apply "/verif/$d/patch.diff" 2>/dev/null; then echo "$n $id PATCH-DOES-NOT-APPLY" >> $root/results.txt; continue; fi
   if python3 -c "import json,sys; sys.exit(0 if any(c['property_id']=='$id' for c in json.load(open('MANIFEST.json'))['checks']) else 1)"; then
-    res=$(bin/govc check -repo "$wt" -contracts /tmp/govc-selftest/contracts -evidence /tmp/govc-selftest/ev "$id" 2>&1)
+    res=$(bin/govc check -repo "$wt" -contracts $root/contracts -evidence $root/ev "$id" 2>&1)
     if echo "$res" | grep -q "^VIOLATION property=$id"; then
       ob=$(echo "$res" | grep "^   obligation" | head -2 | sed 's/^   obligation //' | cut -c1-110 | tr '\n' ';')
-      echo "$n $id DETECTED $ob" >> /tmp/govc-selftest/results.txt
+      echo "$n $id DETECTED $ob" >> $root/results.txt
     else
-      echo "$n $id MISSED" >> /tmp/govc-selftest/results.txt
+      echo "$n $id MISSED" >> $root/results.txt
     fi
   else
-    echo "$n $id NOT-CLAIMED" >> /tmp/govc-selftest/results.txt
+    echo "$n $id NOT-CLAIMED" >> $root/results.txt
   fi
 done
 git -C /repo worktree remove --force "$wt"
-rm -rf /tmp/govc-selftest/ev /verif/replay/*-alt* /verif/work/*-alt*
-cat /tmp/govc-selftest/results.txt
-if [ -z "$filter" ]; then
-  cp /tmp/govc-selftest/results.txt "$out"
+rm -rf $root/ev /verif/replay/*-alt* /verif/work/*-alt*
+cat $root/results.txt
+if [ "$mode" = "thorough-corpus" ]; then
+  : # called by ./check <id> thorough: the committed table is only read, never rewritten
+elif [ -z "$filter" ]; then
+  cp $root/results.txt "$out"
 else
   # merge: replace the lines of the re-run seeds in the committed table
-  python3 - "$out" /tmp/govc-selftest/results.txt <<'PY'
+  python3 - "$out" $root/results.txt <<'PY'
 import sys
 out, new = sys.argv[1], sys.argv[2]
 rows = {}
